@@ -21,6 +21,7 @@ type Config struct {
 	MaxPaths      int      // safety valve
 	InitPkgs      []string // import-path prefixes whose package init runs
 	TrackFields   []string // "pkg.Type.field" whose accesses become events
+	TrackStructsOf []string // package names: every field of every struct of these packages is tracked
 	TrackAllocs   []string // "func-substring:var" heap locals whose accesses become events
 	TrackMakeMaps []string // function-name substrings whose MakeMap results are tracked
 	NewestFirst   bool     // thread pick policy (second extraction)
@@ -323,6 +324,23 @@ func (i *interpreter) violate(kind, label, key, detail string, cond *smt.Term) {
 	}
 	i.solver.Pop()
 	v.Trace = append([]string{}, i.trace...)
+	if len(i.threads) > 1 && v.Model != nil && kind == "assert" {
+		// The violation was observed on the extracted run of a concurrent path:
+		// make the native replay take the same order of marks (each mark of a
+		// goroutine waits for the mark that preceded it in the extracted run).
+		var prev *event
+		for _, ev := range i.events {
+			if ev.kind != "mark" {
+				continue
+			}
+			if prev != nil && prev.th != ev.th && prev.name != ev.name {
+				if _, dup := v.Model["hold:"+ev.name]; !dup {
+					v.Model["hold:"+ev.name] = prev.name
+				}
+			}
+			prev = ev
+		}
+	}
 	i.res.Violations = append(i.res.Violations, v)
 }
 
